@@ -26,7 +26,8 @@ m = {
     "checks": [],
     "not_applicable": [],
     "notes": "Property-based testing / fuzzing only. ./check <ID> --tier quick|thorough; VERIF_SEED selects the seed "
-             "(default 1). Genuine defects found and repaired are listed in known_findings.json (status fixed).",
+             "(default 1). Genuine defects found and repaired are listed in known_findings.json (status fixed); three "
+             "unrepaired OVM-ASCII findings are listed there with status known and probes under known/C06.",
 }
 for pid in ALL:
     if pid in CHECKS:
@@ -40,7 +41,8 @@ for pid in ALL:
             "engine": c.get("engine", "rapidcheck"),
             "level_claimed": {"category": c["level"], "text": c["level_text"], "design_ref": c.get("design_ref", "DESIGN.md section 3, " + pid)},
             "level_note": c["level_note"],
-            "technique": c["technique"],
+            "technique": c["technique"] + (" + libFuzzer coverage-guided campaign over the same program interpreter and oracles"
+                                           + ("" if c["fuzz"].get("quick") else " (thorough tier only)") if c.get("fuzz") else ""),
         })
     else:
         m["not_applicable"].append({"property_id": pid, "reason": NOT_APPLICABLE.get(pid, "check not built yet (work in progress)")})
